@@ -251,7 +251,7 @@ def correspondence(ctx):
 
     # (a) files with encrypted components: writer, binary at other offsets, reader
     with toycipher.registered():
-        for i in range(ctx.budget(40, 1200) * scale):
+        for i in range(ctx.budget(40, 800) * scale):
             cm, comps = B.gen_file(r, enc_prob=0.65)
             key = B.rkey(r)
             f = B.build(cm, comps)
@@ -280,7 +280,7 @@ def correspondence(ctx):
                             "key": key, "text": w[1][:160]})
 
         # (b) set_config on a file, then write and read
-        for i in range(ctx.budget(40, 1200) * scale):
+        for i in range(ctx.budget(40, 800) * scale):
             cm, comps = B.gen_file(r, enc_prob=0.2, max_comps=3)
             if r.random() < 0.4:   # an older configuration component that set_config has to replace
                 comps.insert(r.randrange(len(comps) + 1), ({0xC3: b"\x03", 0xC2: b"\x02"}, B.gen_blob(r, r.choice([1, 7, 16, 33])), None, True))
@@ -313,7 +313,7 @@ def correspondence(ctx):
                             "blob": f.components[-1].blob, "flag": f.components[-1].encrypt_by_session_key})
 
         # (c) BEC2 framing with AES auth blocks
-        for i in range(ctx.budget(40, 1200) * scale):
+        for i in range(ctx.budget(40, 800) * scale):
             cm, comps = B.gen_file(r, enc_prob=0.6, max_comps=3)
             blocks = gen_blocks(r)
             key = B.rkey(r) if r.random() < 0.9 else bytes(r.randrange(256) for _ in range(24))
@@ -345,7 +345,7 @@ def correspondence(ctx):
     # (d) cipher missing / failing / strict: result and output trace (stream: the write() calls;
     #     path: created?, content)
     kinds = ["toy", "unreg", "enc_raises", "mac_raises", "late", "strict"]
-    for i in range(ctx.budget(72, 1200) * scale):
+    for i in range(ctx.budget(72, 800) * scale):
         kind = kinds[i % len(kinds)]
         exc, ename = r.choice(EXCS)
         cm, comps = B.gen_file(r, enc_prob=0.6, max_comps=3)
